@@ -1,19 +1,18 @@
 SPECIFICATION Spec
 CONSTANTS
-  Ids = {"A", "B", "C", "D"}
-  InitUp = {"A", "B", "C"}
+  Ids = {"A", "B", "C", "D", "E"}
+  InitUp = {"A", "B", "C", "D", "E"}
   Small = {"s1"}
-  Big = {"b1", "b2"}
+  Big = {"b1"}
   Fanout = 3
   TxLimit = 3
   SendList = "current"
   OnTimeout = "ready"
   OkayRequired = 3
   Budgets = {0}
-  MaxStop = 1
-  MaxJoin = 1
+  MaxStop = 0
+  MaxJoin = 0
   UOrder <- MCOrder
 VIEW View
-INVARIANTS Delivered Readiness Sane
-PROPERTIES JoinGetsAll FlushPasses
+INVARIANTS Delivered DeliveredStrict Sane
 CHECK_DEADLOCK FALSE
